@@ -35,12 +35,29 @@ static int spec_status(int a);
 static uint32_t spec_due(int a);
 static void cb_log(void *p) { int k = (int)(size_t)p; if (k >= 0 && k < N) { CB_N[k]++; CB_STATUS[k] = (int8_t)spec_status(k); CB_DUE[k] = spec_due(k); } CB_TOTAL++; }
 /* C08: interrupt injection at the lock boundaries */
-uint32_t N_LOCK, N_UNLOCK, N_ISR; int8_t LOCKED; _Bool H_ISR[8]; uint32_t ISR_I;
+uint32_t N_LOCK, N_UNLOCK, N_ISR; int8_t LOCKED; _Bool H_ISR[8]; uint32_t ISR_I, H_ISR_AT;
 int16_t COTmrService(CO_TMR *tmr);
+static int spec_status(int k);
+uint32_t EXP[VW_TMR_N];      /* ghost: how often action k was moved to the elapsed list by an interrupt inside the operation */
+static void isr_service(void)
+{
+    /* the service moves the first pending event to the elapsed list exactly when it reports an expiry: its actions expire */
+    CO_TMR_TIME *tx = V_NODE.Tmr.Use;
+    if (tx != 0) { G_HW = 0; }
+    N_ISR++;
+    if (COTmrService(&V_NODE.Tmr) > 0 && tx != 0) {
+        CO_TMR_ACTION *a = tx->Action;
+        for (int i = 0; i < VW_TMR_N && a != 0; i++) { for (int k = 0; k < VW_TMR_N; k++) { if (a == &V_TMEM[k].Act) { EXP[k]++; } } a = a->Next; }
+    }
+}
 static void isr(void)
 {
 #ifdef VW_ISR
-    if (ISR_I < 8 && H_ISR[ISR_I]) { if (TM.Use != 0) { G_HW = 0; } N_ISR++; (void)COTmrService(&TM); }   /* the counter may expire at any preemption point */
+#ifdef VW_ISR_ONCE
+    if (ISR_I == H_ISR_AT) { isr_service(); }              /* exactly one preemption, at any preemption point */
+#else
+    if (ISR_I < 8 && H_ISR[ISR_I]) { isr_service(); }   /* the counter may expire at any preemption point */
+#endif
     ISR_I++;
 #endif
 }
@@ -130,7 +147,7 @@ void harness(void)
     __CPROVER_assert(spec_wf(), "construction: the pre-state is well-formed");
     int st0[N]; uint32_t due0[N], cyc0[N]; int k, nfree = 0;
     for (k = 0; k < N; k++) { st0[k] = spec_status(k); due0[k] = spec_due(k); cyc0[k] = ACT(k)->CycleTicks; CB_N[k] = 0; CB_STATUS[k] = -9; if (st0[k] == -1) { nfree++; } }
-    CB_TOTAL = 0; ISR_I = 0; N_ISR = 0;
+    CB_TOTAL = 0; ISR_I = 0; N_ISR = 0; for (k = 0; k < N; k++) { EXP[k] = 0; }
 #ifndef VW_ISR
 #define ELAPSED_BY_ISR(k) 0
 #else
@@ -192,7 +209,13 @@ void harness(void)
     __CPROVER_assert(spec_wf(), "process: pool well-formed and conserved");
     __CPROVER_assert(TM.Elapsed == 0, "process: every elapsed action is handled in this step");
     for (k = 0; k < N; k++) {
-        __CPROVER_assert(CB_N[k] == ((st0[k] == 1 || ELAPSED_BY_ISR(k)) ? 1u : 0u) || (N_ISR > 0 && CB_N[k] <= 1), "process: the callback of every elapsed action runs exactly once, no other callback runs");
+#ifndef VW_ISR
+        __CPROVER_assert(CB_N[k] == (st0[k] == 1 ? 1u : 0u), "process: the callback of every elapsed action runs exactly once, no other callback runs");
+#else
+        /* every expiry - the one before the call and each one an interrupt adds while processing (a re-armed cyclic action may
+         * expire again) - is answered by exactly one callback, or is still waiting in the elapsed list: none lost, none doubled */
+        __CPROVER_assert(CB_N[k] + (spec_status(k) == 1 ? 1u : 0u) == (st0[k] == 1 ? 1u : 0u) + EXP[k], "process under preemption: callbacks + still elapsed == expiries, for every action");
+#endif
 #ifndef VW_ISR
         if (st0[k] == 1 && cyc0[k] == 0) { __CPROVER_assert(spec_status(k) == -1, "process: a one-shot action frees its slot"); }
         if (st0[k] == 1 && cyc0[k] != 0) { __CPROVER_assert(spec_status(k) == 0 && CB_STATUS[k] == 0 && CB_DUE[k] == cyc0[k], "process: a cyclic action is pending again, one period ahead, before its callback runs"); }
